@@ -210,6 +210,27 @@ impl Profile {
                 p.w_crash = 0;
                 p.steps = 900;
             }
+            "contend" => {
+                p.ids = vec![1, 2, 3, 4];
+                p.voters = vec![1, 2, 3, 4];
+                p.w_campaign = 8;
+                p.w_drop = 6;
+                p.w_dup = 3;
+                p.w_crash = 1;
+                p.proposals = 20;
+                p.async_pct = 50;
+                p.steps = 700;
+            }
+            "contendpv" => {
+                p.ids = vec![1, 2, 3];
+                p.voters = vec![1, 2, 3];
+                p.pre_vote = true;
+                p.w_campaign = 8;
+                p.w_drop = 4;
+                p.w_dup = 4;
+                p.w_crash = 0;
+                p.steps = 600;
+            }
             "reelect" => {
                 p.ids = vec![1, 2, 3, 4, 5];
                 p.voters = vec![1, 2, 3, 4, 5];
